@@ -45,8 +45,6 @@ class PairOb(OracleOb):
             first = [p for p in exp.pairs if any(bool(p[0] == q[0]) and bool(p[1] == q[1]) for q in lifted.pairs)]
             if set_eq(lifted.sources, exp.sources) and set_eq(lifted.targets, exp.targets) and len(first) >= 1:
                 return "C02-union-first-branch-literal-shifts-later-branches"
-        if self.st.kind == "create" and set_eq(lifted.pairs, [(p, p) for p in _cols(lifted)]):
-            return "C02-one-node-paths-for-create-table"
         return None
 
 
